@@ -39,9 +39,10 @@ def _is_subsequence(small, big):
     return all(any(x == y for y in it) for x in small)
 
 
-def attribute(failures, run_batch, classify, sig_of, max_rounds=8, cap=9, limit=700):
+def attribute(failures, run_batch, classify, sig_of, max_rounds=8, cap=9, limit=600):
     """failures: list of Failure.  run_batch(list of ops-lists) -> list of (events, first_mismatch_index or None)
     per case (events[0] is Reset).  classify(event) -> short class string.
+    Each round minimises one representative (the shortest execution) per class of rejected event, all in one batch.
     Returns list of (signature, minimal_ops, minimal_events, [failures attributed])."""
     for f in failures:
         f.classes = [classify(e) for e in f.events[1:]]
@@ -49,34 +50,40 @@ def attribute(failures, run_batch, classify, sig_of, max_rounds=8, cap=9, limit=
     out = []
     rounds = 0
     while rest:
-        rep = rest[0]
         rounds += 1
+        reps = {}
+        for f in rest:
+            reps.setdefault(f.classes[-1], f)
         if rounds > max_rounds:
-            sig = "unminimised:" + sig_of(rep.classes[-1:])
-            same = [f for f in rest if f.classes[-1] == rep.classes[-1]]
-            out.append((sig, rep.ops, rep.events, same))
-            rest = [f for f in rest if f.classes[-1] != rep.classes[-1]]
-            continue
-        prior, last = rep.ops[:-1], rep.ops[-1]
-        cands = []
-        for s in _subsets(len(prior), cap):
-            cands.append([prior[i] for i in s] + [last])
-            if len(cands) >= limit:
-                break
-        cands.append(list(rep.ops))
-        best = None
-        for ops, (events, mm) in zip(cands, run_batch(cands)):
+            for cls, rep in reps.items():
+                out.append(("unminimised:" + sig_of(rep.classes[-1:]), rep.ops, rep.events, [f for f in rest if f.classes[-1] == cls]))
+            break
+        cands, owner = [], []
+        for cls, rep in reps.items():
+            prior, last = rep.ops[:-1], rep.ops[-1]
+            n = 0
+            for sub in _subsets(len(prior), cap):
+                cands.append([prior[i] for i in sub] + [last])
+                owner.append(cls)
+                n += 1
+                if n >= limit:
+                    break
+            cands.append(list(rep.ops))
+            owner.append(cls)
+        best = {}
+        for ops, cls, (events, mm) in zip(cands, owner, run_batch(cands)):
             if mm is not None and mm == len(ops) and len(events) > mm:
                 cl = [classify(e) for e in events[1:mm + 1]]
-                if cl[-1] != rep.classes[-1]:
+                if cl[-1] != cls:
                     continue                       # fails, but differently: not a reduction of this failure
-                if best is None or len(ops) < len(best[0]):
-                    best = (ops, events[:mm + 1], cl)
-        if best is None:                           # not reproducible in isolation (should not happen): keep as is
-            best = (rep.ops, rep.events, rep.classes)
-        sig = sig_of(best[2])
-        mine = [f for f in rest if f is rep or (f.classes[-1] == best[2][-1] and _is_subsequence(best[2][:-1], f.classes[:-1]))]
-        ids = set(id(f) for f in mine)
-        rest = [f for f in rest if id(f) not in ids]
-        out.append((sig, best[0], best[1], mine))
+                if cls not in best or len(ops) < len(best[cls][0]):
+                    best[cls] = (ops, events[:mm + 1], cl)
+        taken = set()
+        for cls, rep in reps.items():
+            b = best.get(cls) or (rep.ops, rep.events, rep.classes)   # not reproducible in isolation: keep as is
+            mine = [f for f in rest if id(f) not in taken and
+                    (f is rep or (f.classes[-1] == cls and _is_subsequence(b[2][:-1], f.classes[:-1])))]
+            taken.update(id(f) for f in mine)
+            out.append((sig_of(b[2]), b[0], b[1], mine))
+        rest = [f for f in rest if id(f) not in taken]
     return out
